@@ -55,6 +55,7 @@ fn scenario_for(property: &str, name: &str, thorough: bool, known: &Known) -> Op
         ("C01", _) => Box::new(props_core::c01(known)),
         ("C05", _) => Box::new(props_core::c05(known)),
         ("C03", _) => Box::new(props_core::c03(known, 3)),
+        ("C06", "four-clients") => Box::new(props_core::c06_four(known)),
         ("C06", "locks-and-data") => Box::new(props_core::c06(known, &[0, 1], &["x", "x/y"], true)),
         ("C06", _) => Box::new(props_core::c06(known, &[0, 1, 2], &["x", "x/y"], false)),
         ("C07", "locks-at-session-end") => Box::new(props_core::c07_locks(known)),
@@ -408,9 +409,14 @@ fn main() {
                 Box::new(props_core::c06(&known, &[0, 1], &["x", "x/y"], true)),
                 Tiered { quick: lim(6, 3, true, 30), thorough: lim(9, 5, true, 400) },
                 "graph",
+            ), (
+                "four-clients".into(),
+                Box::new(props_core::c06_four(&known)),
+                Tiered { quick: lim(7, 3, true, 30), thorough: lim(10, 5, true, 400) },
+                "graph",
             )],
             CORE_ASSUMPTIONS,
-            "second scenario: the same by two clients together with set / delete / pdelete of the locked keys and their children (locks are advisory and live beside the data); first: every sequence of lock/acquireLock/releaseLock/disconnect/connect by three clients over two nested keys up to the completed depth, de-duplicated by a complete state snapshot; acquire receivers are polled after every request; distinct_nontrivial counts distinct (request kind, answer class) pairs",
+            "third scenario: four clients on one key (a queue of three waiters, leaving from its front, middle and end); second scenario: the same by two clients together with set / delete / pdelete of the locked keys and their children (locks are advisory and live beside the data); first: every sequence of lock/acquireLock/releaseLock/disconnect/connect by three clients over two nested keys up to the completed depth, de-duplicated by a complete state snapshot; acquire receivers are polled after every request; distinct_nontrivial counts distinct (request kind, answer class) pairs",
         ),
         "C07" => run_scenarios(
             "C07",
